@@ -419,7 +419,15 @@ def check(pid, tier, verif_seed, n_override=None):
     # confirmed by replaying their unminimised run twice
     MAX_SHRINK = int(os.environ.get('VERIF_MAX_SHRINK', '6'))
     n_shrunk = 0
+    MAX_REPORT = int(os.environ.get('VERIF_MAX_REPORT', '12'))
+    skipped_sigs = 0
     for sig in sorted(by_sig):
+        if len(new_violations) >= MAX_REPORT:
+            # a change that breaks everything produces hundreds of
+            # signatures; a dozen confirmed replay files are enough
+            if findings.match(known, sig) is None:
+                skipped_sigs += 1
+            continue
         kf = findings.match(known, sig)
         r, v = min(by_sig[sig], key=lambda rv: (len(rv[0]['run'].get(
             'ops', [])), rv[0]['index']))
@@ -483,6 +491,10 @@ def check(pid, tier, verif_seed, n_override=None):
             print(f"[{pid}] note: listed known finding {kf['signature']} no "
                   f"longer reproduces from {wit} ({n} hits in this batch)",
                   flush=True)
+    if skipped_sigs:
+        print(f'[{pid}] {skipped_sigs} further violation signature(s) were '
+              f'seen but not processed (limit {MAX_REPORT} per invocation)',
+              flush=True)
     for sig, path, rp, cnt in new_violations:
         print(f'VIOLATION property={pid} replay={path}')
         print(f"  sig={sig} seed={rp['seed']:016x} hashseed={rp['hashseed']}"
